@@ -124,7 +124,7 @@ def check_one(case):
     res = Result()
     w = common.run_world(case, res)
     # types declared during the history (sim/dyntypes.py): every 40-th run or so, derived from the case so that a replay needs nothing else
-    if int(__import__("hashlib").sha256(repr(sorted((t_["id"], t_.get("data", "")[:48]) for t_ in case["tasks"])).encode()).hexdigest()[:6], 16) % 40 == 0:
+    if int(__import__("hashlib").sha256(repr(sorted((t_["id"], t_.get("data", "")[:48]) for t_ in case["tasks"])).encode()).hexdigest()[:6], 16) % 150 == 0:
         from .. import dyntypes
         seed_ = int(__import__("hashlib").sha256(repr([t_.get("data", "")[:48] for t_ in case["tasks"]]).encode()).hexdigest()[6:12], 16)
         res.count("types-declared-during-the-history")
